@@ -6,7 +6,7 @@ from ..flow import CFG, attr_chain
 from ..astutil import call_name, self_name, parents
 from ..callgraph import resolve_name
 from ..e2_tables import TableEval, init_signature, fixed_parent_constants, effective_params
-from ..e3_axes import Interp, Arr, Num, Ax, NoneV, StrV, Obj
+from ..e3_axes import is_top, Interp, Arr, Num, Ax, NoneV, StrV, Obj
 from ..scenarios import symbolic_estimator
 from .c01 import expected
 
@@ -33,6 +33,28 @@ def run(pm, ctx):
     ctx.rule("C11-b", "the affinity is the named kernel/metric with its parameters, the callable's output, or the user's matrix", floor=12)
     ctx.rule("C11-c", "affinity-related hyper-parameters have a single point of use", floor=8)
     ctx.rule("C11-d", "a precomputed matrix given as y must reach every affinity computation", floor=8)
+    ctx.rule("C11-e", "option names are compared by value: an identity test on a string depends on interning (an unpickled estimator, a name read "
+             "from a file or built at run time is equal but not identical)", floor=10)
+    n_cmp = 0
+    for u in pm.units.values():
+        consts = {k for k, v in getattr(u, "assigns", {}).items() if isinstance(v, ast.Constant) and isinstance(v.value, str)}
+        for n in ast.walk(u.tree):
+            if isinstance(n, ast.Compare) and len(n.ops) == 1:
+                sides = [n.left, n.comparators[0]]
+                strs = [x for x in sides if (isinstance(x, ast.Constant) and isinstance(x.value, str)) or (isinstance(x, ast.Name) and x.id in consts)]
+                if not strs:
+                    continue
+                n_cmp += 1
+                f = next((p_ for p_ in parents(n) if isinstance(p_, ast.FunctionDef)), None)
+                site = f"{u.relpath}:{f.name if f else '<module>'}: {norm_src(n)[:50]}"
+                if isinstance(n.ops[0], (ast.Is, ast.IsNot)):
+                    ctx.violation("C11-e", u.relpath, f.name if f else "<module>", norm_src(n)[:100], f"`{norm_src(n)}` compares a string by identity: a configuration whose "
+                                  f"option is equal to {norm_src(strs[0])} but is another object takes the other branch (the precomputed matrix / named option is ignored)",
+                                  line=n.lineno, site=site)
+                else:
+                    ctx.ok("C11-e", site)
+    if n_cmp == 0:
+        raise AnalysisError("anchor vanished: string comparisons")
     te = TableEval(pm)
     # ------------------------------------------------------------------ a
     for K in pm.concrete_estimators():
@@ -132,6 +154,8 @@ def run(pm, ctx):
             okk = isinstance(k, StrV) and k.const == "euclidean"
         if okk:
             ctx.ok("C11-a", site, repr(res))
+        elif is_top(res) or (isinstance(res, Obj) and res.cls is None):
+            ctx.undecided_site("C11-a", site, f"abstract result {res!r}")
         else:
             ctx.violation("C11-a", base.unit.relpath, "DiscriminativeModel.get_gemini", f"gemini={label}", f"resolves to {res!r} "
                           f"{getattr(res, 'attrs', {}).get('ovo', '')} instead of {cls}(ovo={ovo}) with default affinity", line=base.methods["get_gemini"].lineno, site=site)
@@ -372,4 +396,5 @@ def controls(pm, tier):
     mut(L, "        H = X @ self.W_ + self.b_\n        return softmax(H)", "        H = X @ self.W_ + self.b_ + 0 * len(getattr(self, 'kernel', ''))\n        return softmax(H)", "C11-c", "placeholder")
     out.pop()
     mut(L, "        training_kernel = self._compute_kernel(X)", "        training_kernel = pairwise_kernels(X, metric=self.base_kernel)", "C11-c", "KernelRIM.fit computes its kernel directly")
+    mut(K, '        if self.kernel == "precomputed":', '        if self.kernel is "precomputed":', "C11-e", "option compared by identity")
     return out
